@@ -4,7 +4,7 @@ set -e
 cd "$(dirname "$0")"
 export CARGO_NET_OFFLINE=true
 python3 tools/extract.py /repo lean || true
-(cd lean && lake build)
+(cd lean && lake build && lake build $(ls SkimModel/Props/*.lean | sed 's#/#.#g; s#\.lean$##'))
 [ -f harness/Cargo.lock ] || cp /repo/Cargo.lock harness/Cargo.lock
 (cd harness && cargo build --offline)
 # the real `sk` binary (release profile: a debug build of the binary dies in clap's own debug assertions);
